@@ -245,6 +245,24 @@ example (t : BinWT.WT) (h : BinWT.new C03.exC true C03.exHS.toArray C03.exLens =
 
 end examples
 
+/-! ## One-ended iterators over the quad vector and the bit vectors
+
+`QVectorIterator::next` is `self.i += 1; qv.get(self.i - 1)`; `BitVectorIter` / `BitVectorIntoIter`
+index with a running counter.  With `get` correct (C13, C08) every history of `next`, `nth(k)` (what
+`skip` and `step_by` call), `count` and `last` is that of the plain sequence. -/
+
+theorem qv_iter_history (dbg : Bool) (q : QV.QVector) (h : QV.Inv q) (ops : List FwdOp) :
+    fwdRun (QV.get dbg q) (QV.abs q).length 0 ops = specRun (QV.abs q) (ops.map FwdOp.toIterOp) :=
+  C12.fwditer_history _ _ (fun i => QV.get_ok dbg h i) ops
+
+theorem bv_iter_history (b : BV.BitVector) (h : BV.Inv b) (ops : List FwdOp) :
+    fwdRun (fun i => (BV.get b i).map (·.map (fun x => if x then 1 else 0))) (BV.abs b).length 0 ops =
+      specRun ((BV.abs b).map (fun x => if x then 1 else 0)) (ops.map FwdOp.toIterOp) := by
+  have := C12.fwditer_history (fun i => (BV.get b i).map (·.map (fun x => if x then 1 else 0)))
+    ((BV.abs b).map (fun x => if x then 1 else 0))
+    (fun i => by rw [BV.get_ok b h i]; simp [Except.map, List.getElem?_map]) ops
+  simpa using this
+
 -- #print axioms Qwt.Props.C12Closed.qwt_iter        -- [propext, Classical.choice, Quot.sound]
 -- #print axioms Qwt.Props.C12Closed.wt_iter         -- [propext, Classical.choice, Quot.sound]
 -- #print axioms Qwt.Props.C12Closed.hwt_iter        -- [propext, Classical.choice, Quot.sound]
